@@ -58,7 +58,7 @@ def make_files(d: Path) -> dict:
     # a network with dust: two grain species of one population (GRAIN0, GRAIN-) under the hh93 model
     G = {"kw": {"grain_model": "hh93"}, "files": [[str(d / "G.leeds"), "leeds"], [str(d / "G2.leeds"), "leeds"]], "badfile": [str(d / "Gbad.leeds"), "leeds"],
          "allowed": ["H", "H2", "GRAIN0", "GRAIN-", "e-", "C+", "C", "CO", "H+"], "krome": False}    # (the ice keeps its Leeds spelling GCO: not a name the API's default prefix can spell)
-    A = {"kw": {"elements": ["E", "H", "HE", "C", "O"], "pseudo_elements": ["CR", "CRP", "PHOTON"]},
+    A = {"kw": {"elements": ["E", "H", "HE", "C", "O"], "pseudo_elements": ["CR", "CRP", "PHOTON"], "rate_modifier": {"2": "1.23e-17 * zeta / 1.3e-17"}},
          "files": [[str(d / "A.naunet"), "naunet"], [str(d / "A2.naunet"), "naunet"]], "badfile": [str(d / "Abad.naunet"), "naunet"],
          "allowed": ["H", "H2", "HE", "HE+", "E-", "C", "O", "CO", "C+"], "krome": False}
     B = {"kw": {"elements": ["e", "H", "D", "He", "C", "N", "O", "Cl"], "pseudo_elements": ["CR", "CRP", "Photon", "o", "p", "m"]},
